@@ -5,7 +5,7 @@ import os
 import re
 
 from .. import exprtree as et
-from ..flow import bool_branch, edge_dominates, must_pass, flow_forward
+from ..flow import bool_branch, discr_branch, edge_dominates, must_pass, flow_forward
 from ..mir import op_base, op_const, const_int, short
 from ..facts import REPO
 from .panics import canon, _cmp_facts, resolve_place
@@ -664,6 +664,29 @@ def a_lb_cycle_check(prog):
     for c in cmp_self:
         if not bool_branch(f, c.dest[0]):
             return False, "the self-containment test is not branched on"
+    # the walk is exhaustive: once an element was popped, Ok(()) is reachable only by coming back to pop() and finding the worklist empty
+    if len(pops) != 1:
+        return False, "verify() pops its worklist at %d places" % len(pops)
+    some_t = none_t = None
+    for (sb, tg, oth) in discr_branch(f, pops[0].dest[0]):
+        some_t, none_t = tg.get(1, oth), tg.get(0, oth)
+    if some_t is None:
+        return False, "the result of pending.pop() is not matched"
+    body = f.reach_from([some_t], avoid=[pops[0].bb])
+    for b in body:
+        for st in f.stmts(b):
+            if st["k"] == "assign" and st["rv"]["k"] == "agg" and st["rv"].get("variant") == "Ok" and st["rv"].get("def", "").endswith("result::Result"):
+                return False, "the member walk in verify() can end with Ok before the worklist is empty (an exit from inside the loop at %s:%s): " \
+                              "groups still pending are never examined, so a cycle through them is accepted" % (f.file, f.blocks[b].get("sp", {}).get("l", "?"))
+    # a newly seen member's own members are queued: members() is not confined to the already-seen edge of insert()
+    for c in mem:
+        for i_ in ins:
+            for (sb, tt, ft) in bool_branch(f, i_.dest[0]):
+                if edge_dominates(f, sb, ft, c.bb):
+                    return False, "verify() expands only members that were already visited"
+    ext = [c for c in f.calls if re.search(r"iter::traits::collect::Extend::extend$|Vec::<T, A>::(push|extend_from_slice|append)$", c.path or "") and loopy(c.bb)]
+    if not ext:
+        return False, "verify() never queues the members of a visited group"
     # LoadBalanceConnector overrides members()
     ov = prog.find(r"LoadBalanceConnector as connectors::Connector>::members$", "redproxy_rs")
     if len(ov) != 1 or "f:connectors" not in str([st for b in ov[0].reachable for st in ov[0].stmts(b)]):
